@@ -50,23 +50,14 @@ Proof. intros s e F. unfold forward. rewrite F. reflexivity. Qed.
 Section WithQuery.
   Variable query : name -> nat -> list nat * list nat.
 
-  Fixpoint along14 (P : state -> event -> bool) (s : state) (evs : list ev14) : bool :=
-    match evs with
-    | [] => true
-    | e :: r => tree_ok P s e && along14 P (fst (fst (step14 query s e))) r
-    end.
-
-  Lemma tree_inv_run14 : forall evs s, tree_inv s ->
-    along14 (fun s e => negb (child_announces s e)) s evs = true -> tree_inv (run14 query s evs).
+  Lemma tree_inv_run14 : forall evs s, tree_inv s -> tree_inv (run14 query s evs).
   Proof.
-    induction evs as [|e evs IH]; intros s H A; simpl in *; [exact H|].
-    apply andb_true_iff in A. destruct A as [A1 A2]. apply IH; [|exact A2].
-    destruct e; cbn [step14 fst]; try (eapply tree_inv_eq; [|exact H]; unfold tree_eq; cbn; tauto).
-    apply tree_inv_step; [exact H|]. simpl in A1. apply negb_true_iff in A1. exact A1.
+    induction evs as [|e evs IH]; intros s H; simpl in *; [exact H|].
+    apply IH. destruct e; cbn [step14 fst]; try (eapply tree_inv_eq; [|exact H]; unfold tree_eq; cbn; tauto).
+    apply tree_inv_step; exact H.
   Qed.
 
   Lemma fanout_run : forall evs e k u t q,
-    along14 (fun s e => negb (child_announces s e)) init evs = true ->
     let s := run14 query init evs in
     forwarded s e = Some (k, u, t, q) ->
     (forall c, In c (children s) -> conn_of c (forward s e) = [CSearch k u t q]) /\
@@ -74,13 +65,18 @@ Section WithQuery.
     (forall p, parent s = Some p -> conn_of p (forward s e) = []) /\
     (forall c, live c s = false -> conn_of c (forward s e) = []) /\
     srv_of (forward s e) = [] /\ closed_of (forward s e) = [].
-  Proof. intros evs e k u t q A s F. apply fanout_exact; [|exact F]. apply tree_inv_run14; [exact tree_inv_init | exact A]. Qed.
+  Proof. intros evs e k u t q s F. apply fanout_exact; [|exact F]. apply tree_inv_run14. exact tree_inv_init. Qed.
 
-  (* own searches: the server carrier is filtered on both sides *)
-  Lemma own_server : forall s k t q, session s = true ->
-    forward s (ServerSearch k me t q) = [] /\ answer query s (ServerSearch k me t q) = [].
+  (* own searches: every carrier is filtered, for forwarding and for answering (generated flags) *)
+  Lemma own_all : forall s k t q, session s = true ->
+    (forward s (ServerSearch k me t q) = [] /\ answer query s (ServerSearch k me t q) = []) /\
+    (forall c, forward s (DistSearch c k me t q) = [] /\ answer query s (DistSearch c k me t q) = []) /\
+    (forall c code, forward s (LegacySearch c code k me t q) = [] /\ answer query s (LegacySearch c code k me t q) = []).
   Proof.
-    intros s k t q Hs. unfold forward, forwarded, answer, own. rewrite Hs. split; reflexivity.
+    intros s k t q Hs. unfold forward, forwarded, answer, own. rewrite Hs. cbn.
+    split; [split; reflexivity|]. split.
+    - intros c. destruct (live c s); split; reflexivity.
+    - intros c code. destruct (live c s && legacy_code_ok code); split; reflexivity.
   Qed.
 
   Definition expected_answer (u : name) (t : Z) (q : nat) : list reply :=
@@ -97,38 +93,17 @@ Section WithQuery.
     rewrite !andb_false_r. split; [reflexivity|]. split; [intros c L; rewrite L; reflexivity|].
     split; [intros c code L C; rewrite L, C; reflexivity|]. intros c code C. rewrite C, andb_false_r. split; reflexivity.
   Qed.
+
+  (* requests of other users are passed on by every carrier (the filter does not over-block) *)
+  Lemma others_forwarded : forall s u t q k, Nat.eqb u me = false ->
+    forwarded s (ServerSearch k u t q) = Some (k, u, t, q) /\
+    (forall c, live c s = true -> forwarded s (DistSearch c k u t q) = Some (k, u, t, q)) /\
+    (forall c code, live c s = true -> legacy_code_ok code = true ->
+       forwarded s (LegacySearch c code k u t q) = Some (LEGACY_UNKNOWN, u, t, q)).
+  Proof.
+    intros s u t q k Hu. unfold forwarded, own. rewrite Hu, !andb_false_r. split; [reflexivity|].
+    split; [intros c L; rewrite L; reflexivity | intros c code L C; rewrite L, C; reflexivity].
+  Qed.
 End WithQuery.
 
-(* F10 seen from C14: the parent is a child, so what it sends is passed back to it *)
 Definition noq : name -> nat -> list nat * list nat := fun _ _ => ([], []).
-Definition echo_witness : list ev14 := map Tree f10_witness.
-
-Lemma fanout_refuted : exists evs e p,
-  let s := run14 noq init evs in parent s = Some p /\ conn_of p (forward s e) <> [].
-Proof.
-  exists echo_witness, (DistSearch 1%nat 49 2%nat 7 0%nat), 1%nat. vm_compute. split; [reflexivity | discriminate].
-Qed.
-
-(* F17: own searches arriving through the distributed carriers are forwarded and answered *)
-Definition f17_history : list ev14 :=
-  map Tree [SessionInit; PeerInit 1%nat 1%nat true; BranchLevel 1%nat 3; BranchRoot 1%nat 5%nat; PeerInit 2%nat 2%nat false].
-
-Lemma own_refuted : forall query q, query me q <> ([], []) ->
-  exists evs c ch k t,
-    let s := run14 query init evs in
-    session s = true /\ parent s = Some c /\ In ch (children s) /\
-    conn_of ch (forward s (DistSearch c k me t q)) <> [] /\ answer query s (DistSearch c k me t q) <> [] /\
-    conn_of ch (forward s (LegacySearch c DIST_SEARCH_MESSAGE_ID k me t q)) <> [] /\
-    answer query s (LegacySearch c DIST_SEARCH_MESSAGE_ID k me t q) <> [].
-Proof.
-  intros query q Hq. exists f17_history, 1%nat, 2%nat, 49, 7.
-  set (s := run14 query init f17_history).
-  assert (Es : session s = true) by reflexivity.
-  assert (El : live 1%nat s = true) by reflexivity.
-  assert (Ea : forall e, (e = DistSearch 1%nat 49 me 7 q \/ e = LegacySearch 1%nat DIST_SEARCH_MESSAGE_ID 49 me 7 q) -> answer query s e <> []).
-  { intros e [E|E]; subst e; unfold answer, reply_for, own; rewrite Es, El; cbn [andb legacy_code_ok];
-      destruct (query me q) as [v l]; cbn [fst snd]; destruct v, l; cbn; try discriminate; exfalso; apply Hq; reflexivity. }
-  split; [reflexivity|]. split; [reflexivity|]. split; [left; reflexivity|].
-  split; [vm_compute; discriminate|]. split; [apply Ea; left; reflexivity|].
-  split; [vm_compute; discriminate|]. apply Ea; right; reflexivity.
-Qed.
